@@ -466,7 +466,22 @@ def _anc(n):
     return list(ancestors(n))
 
 
+def check_order(ctx, num=8):
+    """operators run in the assigned order: Assignment keeps the list it was given, Container.operators is that list,
+    the generator walks it front to back (C01#6 checks the walk)."""
+    P = ctx.P
+    c02.check_assignment_ctor(ctx, num)
+    pf = P.fn(CT, "Container.operators")
+    ctx.touch(pf)
+    rs = [r for r in own_nodes(pf.node) if isinstance(r, ast.Return)]
+    ok = len(rs) == 1 and rs[0].value is not None and norm.U(rs[0].value) == "self.assignment.ops"
+    ctx.ob(num, "K6", "a container's operator list is the assignment's operator list (same order)", ok, pf, rs[0] if rs else pf.node, detail=f"{[stmt_text(r) for r in rs]}")
+    from . import c01
+    c01.check_running_sites(ctx)
+
+
 def run(ctx):
+    check_order(ctx, 8)
     check_scaling(ctx, 3)
     sh = check_plan(ctx)
     check_tick_body(ctx, sh)
